@@ -208,6 +208,9 @@ func (s *initialCryptoStream) Write(p []byte) (int, error) {
 			if a.start == protocol.InvalidByteCount {
 				return 1
 			}
+			if b.start == protocol.InvalidByteCount {
+				return -1
+			}
 			if a.start > b.start {
 				return 1
 			}
